@@ -1206,6 +1206,290 @@ class Printer:
         self.fire('abs:touch')
         return t + 'TOUCH();\n'
 
+    # ------------------------------------------------------------------ size-tracking rendering (abstract: sizes)
+    # Keeps exactly: control flow, scalar members of *this (flattened paths f_<a>_<b>), sizes of container members of *this
+    # (sz_<a>_<b>), scalar locals, the effect of resize/clear/push_back on those sizes, and the effect of stream.Sync(x) on a scalar
+    # member or local x (havoc when reading).  Everything else (element data, calls of other member functions) is dropped and reported
+    # as a rule firing `sz:call-assumed-neutral:<name>`; the unit's assumptions list them.
+    def sz_path(self, n):
+        """[a, b, c] for the member path this->a.b.c, else None"""
+        def strip(b):
+            while b.get('kind') in ('ImplicitCastExpr', 'ParenExpr', 'MaterializeTemporaryExpr', 'CXXBindTemporaryExpr') and b.get('inner'):
+                b = b['inner'][0]
+            return b
+        b = strip(n)
+        names = []
+        while b.get('kind') == 'MemberExpr' and b.get('inner'):
+            names.append(b['name'])
+            base = strip(b['inner'][0])
+            if b.get('isArrow'):
+                if base.get('kind') == 'CXXThisExpr':
+                    return list(reversed(names)), n
+                return None, n
+            b = base
+        return None, n
+
+    def sz_member(self, names, node, size=False):
+        nm = ('sz_' if size else 'f_') + '_'.join(names)
+        reg = self.unit['_selfs'].setdefault(self.unit['self'], OrderedDict())
+        if size:
+            reg.setdefault(nm, 'size_t')
+        else:
+            q, d = self.qt(node)
+            t = Types.strip(d or q)
+            if t in SCALARS:
+                ct = SCALARS[t]
+            else:
+                ct = self.T.c(q, d)     # enums / typedefs from the unit's typemap
+                if ct not in SCALARS.values() and ct not in self.unit.get('sz_scalar_types', []):
+                    raise ExtractionBreak('not a scalar member: %s (%s)' % ('.'.join(names), ct))
+            reg.setdefault(nm, ct)
+        return 'self->' + nm
+
+    def sz_e(self, n):
+        """scalar expression over flattened members, sizes, tracked locals and literals; raises when out of reach"""
+        k = n.get('kind')
+        I = n.get('inner', []) or []
+        if k in ('ImplicitCastExpr', 'ParenExpr', 'ExprWithCleanups', 'MaterializeTemporaryExpr', 'ConstantExpr') and I:
+            if k == 'ImplicitCastExpr' and n.get('castKind') in ('IntegralCast', 'IntegralToBoolean', 'IntegralToFloating', 'FloatingToIntegral'):
+                q, d = self.qt(n)
+                t = Types.strip(d or q)
+                if t in SCALARS and k == 'ImplicitCastExpr':
+                    return '((%s)%s)' % (SCALARS[t], self.sz_e(I[-1]))
+            return self.sz_e(I[-1]) if k != 'ParenExpr' else '(%s)' % self.sz_e(I[-1])
+        if k in ('CXXStaticCastExpr', 'CStyleCastExpr', 'CXXFunctionalCastExpr') and I:
+            q, d = self.qt(n)
+            t = Types.strip(d or q)
+            if t not in SCALARS:
+                raise ExtractionBreak('cast to non-scalar')
+            return '((%s)%s)' % (SCALARS[t], self.sz_e(I[-1]))
+        if k in ('IntegerLiteral', 'CXXBoolLiteralExpr'):
+            return self.e(n)
+        if k == 'DeclRefExpr':
+            rd = n.get('referencedDecl', {})
+            if rd.get('kind') == 'EnumConstantDecl':
+                return self.e(n)
+            if rd.get('id') in self.sz_locals:
+                return self.sz_locals[rd['id']]
+            raise ExtractionBreak('untracked variable')
+        if k == 'MemberExpr':
+            names, _ = self.sz_path(n)
+            if names:
+                return self.sz_member(names, n)
+            raise ExtractionBreak('member of something else than *this')
+        if k == 'UnaryOperator' and n.get('opcode') in ('!', '-', '~') and I:
+            return '(%s%s)' % (n['opcode'], self.sz_e(I[0]))
+        if k == 'BinaryOperator' and n.get('opcode') in ('+', '-', '*', '/', '%', '<', '>', '<=', '>=', '==', '!=', '&&', '||', '&', '|', '>>', '<<'):
+            if n['opcode'] in ('&&', '||'):
+                parts = []
+                for x in I:
+                    try:
+                        parts.append(self.sz_e(x))
+                    except ExtractionBreak:
+                        self.fire('sz:nondet-condition')
+                        parts.append('nondet_bool()')
+                return '(%s %s %s)' % (parts[0], n['opcode'], parts[1])
+            return '(%s %s %s)' % (self.sz_e(I[0]), n['opcode'], self.sz_e(I[1]))
+        if k == 'ConditionalOperator' and len(I) == 3:
+            return '(%s ? %s : %s)' % (self.sz_e(I[0]), self.sz_e(I[1]), self.sz_e(I[2]))
+        if k == 'CXXMemberCallExpr' and I:
+            me = I[0]
+            m = me.get('name')
+            obj = me['inner'][0] if me.get('inner') else {}
+            cc = self.unit.get('sz_cond_calls', {})
+            if m in cc and len(I) == 1:
+                self.fire('sz:mapped-call')
+                return '(%s)' % cc[m]
+            if m in ('size', 'empty') and len(I) == 1:
+                names, _ = self.sz_path(obj)
+                if names:
+                    szv = self.sz_member(names, obj, size=True)
+                    return szv if m == 'size' else '(%s == 0)' % szv
+            raise ExtractionBreak('call in scalar expression')
+        raise ExtractionBreak('expression out of reach: %s' % k)
+
+    def sz_havoc(self, lv, ct):
+        return '{ %s nd_; %s = nd_; }' % (ct, lv)
+
+    def st_sz(self, n, ind):
+        k = n.get('kind')
+        I = n.get('inner', []) or []
+        t = '\t' * ind
+        if not hasattr(self, 'sz_locals'):
+            self.sz_locals = {}
+            self.sz_local_types = {}
+
+        def cond(c):
+            try:
+                return self.sz_e(c)
+            except ExtractionBreak:
+                self.fire('sz:nondet-condition')
+                return 'nondet_bool()'
+        if k == 'CompoundStmt':
+            return t + '{\n' + ''.join(self.st_sz(c, ind + 1) for c in I) + t + '}\n'
+        if k == 'IfStmt':
+            r = t + 'if (%s)\n' % cond(I[0]) + t + '{\n' + self.st_sz(I[1], ind + 1) + t + '}\n'
+            if len(I) > 2:
+                r += t + 'else\n' + t + '{\n' + self.st_sz(I[2], ind + 1) + t + '}\n'
+            return r
+        if k == 'ReturnStmt':
+            self.fire('sz:return')
+            return t + 'return;\n'
+        if k in ('BreakStmt', 'ContinueStmt', 'NullStmt'):
+            return t + ';\n'
+        if k == 'DeclStmt':
+            out = ''
+            for v in I:
+                if v.get('kind') != 'VarDecl':
+                    continue
+                q = v['type']['qualType']
+                d = v['type'].get('desugaredQualType')
+                tt = Types.strip(d or q)
+                if tt in SCALARS and not self.T.is_ref(q):
+                    nm = v['name']
+                    init = [c for c in v.get('inner', []) if c.get('kind') not in ('FullComment',)]
+                    self.sz_locals[v['id']] = nm
+                    self.sz_local_types[nm] = SCALARS[tt]
+                    try:
+                        iv = self.sz_e(init[0]) if init else None
+                    except ExtractionBreak:
+                        iv = None
+                    self.fire('sz:scalar-local')
+                    if iv is not None:
+                        out += t + '%s %s = %s;\n' % (SCALARS[tt], nm, iv)
+                    else:
+                        out += t + '%s %s; /* arbitrary */\n' % (SCALARS[tt], nm)
+                else:
+                    self.fire('sz:untracked-local')
+                    out += t + '/* untracked local %s */;\n' % v.get('name')
+            return out
+        if k in ('ForStmt', 'WhileStmt', 'CXXForRangeStmt', 'DoStmt'):
+            body = I[-1]
+            saved = dict(self.sz_locals)
+            pre = ''
+            if k == 'ForStmt' and I and I[0] and I[0].get('kind') == 'DeclStmt':
+                pre = self.st_sz(I[0], ind + 1)
+            btxt = self.st_sz(body, ind + 1)
+            targets = sorted(set(re.findall(r'^\s*(?:\{ \w+ nd_; )?(self->\w+|\w+) = ', btxt, re.M)))
+            hv = ''
+            for tg in targets:
+                if tg.startswith('self->'):
+                    ct = self.unit['_selfs'][self.unit['self']].get(tg[6:])
+                else:
+                    ct = self.sz_local_types.get(tg)
+                if ct and not re.search(r'^\s*%s %s\b' % (re.escape(ct), re.escape(tg)), btxt + pre, re.M):
+                    hv += t + '\t' + self.sz_havoc(tg, ct) + '\n'
+            self.fire('sz:loop-as-havoc-then-optional-body')
+            self.sz_locals = saved if k != 'ForStmt' else self.sz_locals
+            # 0 iterations: skipped; >= 1 iterations: arbitrary state of everything the body assigns, then the last iteration
+            return t + 'if (nondet_bool())\n' + t + '{\n' + pre + hv + btxt + t + '}\n'
+        nn = n
+        while nn.get('kind') in ('ExprWithCleanups', 'ImplicitCastExpr', 'ParenExpr') and nn.get('inner'):
+            nn = nn['inner'][0]
+        if nn.get('kind') == 'CXXMemberCallExpr' and nn.get('inner'):
+            me = nn['inner'][0]
+            m = me.get('name')
+            obj = me['inner'][0] if me.get('inner') else {}
+            args = [a for a in nn['inner'][1:] if a.get('kind') != 'CXXDefaultArgExpr']
+            names, _ = self.sz_path(obj)
+            if m in ('resize', 'clear', 'push_back', 'emplace_back', 'pop_back', 'reserve', 'shrink_to_fit', 'assign') and names:
+                szv = self.sz_member(names, obj, size=True)
+                if m == 'resize' and len(args) >= 1:
+                    try:
+                        self.fire('sz:resize')
+                        return t + '%s = (size_t)%s;\n' % (szv, self.sz_e(args[0]))
+                    except ExtractionBreak:
+                        self.fire('sz:resize-to-unknown')
+                        return t + self.sz_havoc(szv, 'size_t') + '\n'
+                if m == 'clear':
+                    self.fire('sz:clear')
+                    return t + '%s = 0;\n' % szv
+                if m in ('push_back', 'emplace_back'):
+                    self.fire('sz:push-back')
+                    return t + 'if (%s < (size_t)-1) %s = %s + 1; \n' % (szv, szv, szv)
+                if m in ('reserve', 'shrink_to_fit'):
+                    return t + ';\n'
+                self.fire('sz:size-to-unknown')
+                return t + self.sz_havoc(szv, 'size_t') + '\n'
+            sync_names = self.unit.get('sz_sync_calls', ['Sync', 'SyncHalf'])
+            if m in sync_names and len(args) >= 1 and not names:
+                a0 = args[0]
+                while a0.get('kind') in ('ImplicitCastExpr', 'ParenExpr') and a0.get('inner'):
+                    a0 = a0['inner'][0]
+                an, _ = self.sz_path(a0)
+                if an and len(args) == 1:
+                    try:
+                        lv = self.sz_member(an, a0)
+                        ct = self.unit['_selfs'][self.unit['self']][lv[6:]]
+                        self.fire('sz:sync-scalar-member')
+                        return t + 'if (gh_mode == 0) %s\n' % self.sz_havoc(lv, ct)
+                    except ExtractionBreak:
+                        pass
+                if a0.get('kind') == 'DeclRefExpr' and a0.get('referencedDecl', {}).get('id') in self.sz_locals:
+                    nm = self.sz_locals[a0['referencedDecl']['id']]
+                    self.fire('sz:sync-scalar-local')
+                    return t + 'if (gh_mode == 0) %s\n' % self.sz_havoc(nm, self.sz_local_types[nm])
+                self.fire('sz:sync-of-untracked-data')
+                return t + '/* sync of element data */;\n'
+            self.fire('sz:call-assumed-neutral:%s' % m)
+            return t + '/* call of %s: assumed not to change tracked fields */;\n' % m
+        if nn.get('kind') == 'CallExpr':
+            f_ = self.callee_decl(nn['inner'][0]) if nn.get('inner') else {}
+            self.fire('sz:call-assumed-neutral:%s' % (f_.get('name') or f_.get('referencedDecl', {}).get('name')))
+            return t + '/* free function call */;\n'
+        if nn.get('kind') in ('BinaryOperator', 'CompoundAssignOperator') and (nn.get('opcode') == '=' or nn.get('kind') == 'CompoundAssignOperator'):
+            lhs = nn['inner'][0]
+            while lhs.get('kind') in ('ImplicitCastExpr', 'ParenExpr') and lhs.get('inner'):
+                lhs = lhs['inner'][0]
+            lv = None
+            ct = None
+            ln, _ = self.sz_path(lhs)
+            try:
+                if ln:
+                    lv = self.sz_member(ln, lhs)
+                    ct = self.unit['_selfs'][self.unit['self']][lv[6:]]
+                elif lhs.get('kind') == 'DeclRefExpr' and lhs.get('referencedDecl', {}).get('id') in self.sz_locals:
+                    lv = self.sz_locals[lhs['referencedDecl']['id']]
+                    ct = self.sz_local_types[lv]
+            except ExtractionBreak:
+                lv = None
+            if lv:
+                try:
+                    rhs = self.sz_e(nn['inner'][1])
+                    self.fire('sz:scalar-assignment')
+                    op = nn.get('opcode', '=')
+                    return t + '%s %s (%s)%s;\n' % (lv, op, ct, rhs) if op == '=' else t + '%s %s %s;\n' % (lv, op, rhs)
+                except ExtractionBreak:
+                    self.fire('sz:assignment-of-unknown')
+                    return t + self.sz_havoc(lv, ct) + '\n'
+            self.fire('sz:assignment-to-untracked')
+            return t + '/* assignment to untracked data */;\n'
+        if nn.get('kind') == 'UnaryOperator' and nn.get('opcode') in ('++', '--'):
+            x = nn['inner'][0]
+            if x.get('kind') == 'DeclRefExpr' and x.get('referencedDecl', {}).get('id') in self.sz_locals:
+                nm = self.sz_locals[x['referencedDecl']['id']]
+                return t + self.sz_havoc(nm, self.sz_local_types[nm]) + '\n'
+            return t + ';\n'
+        if nn.get('kind') == 'CXXOperatorCallExpr':
+            # whole-object assignment (vector = vector ...): size of a tracked container becomes unknown
+            if len(nn.get('inner', [])) >= 2:
+                ln, _ = self.sz_path(nn['inner'][1])
+                if ln:
+                    try:
+                        q, d = self.qt(nn['inner'][1])
+                        if self.T.is_vec(q, d):
+                            rn, _ = self.sz_path(nn['inner'][2]) if len(nn['inner']) > 2 else (None, None)
+                            szv = self.sz_member(ln, nn['inner'][1], size=True)
+                            if rn:
+                                return t + '%s = %s;\n' % (szv, self.sz_member(rn, nn['inner'][2], size=True))
+                            return t + self.sz_havoc(szv, 'size_t') + '\n'
+                    except ExtractionBreak:
+                        pass
+            self.fire('sz:operator-call-assumed-neutral')
+            return t + '/* operator call */;\n'
+        self.fire('sz:statement-dropped:%s' % nn.get('kind'))
+        return t + '/* %s dropped */;\n' % nn.get('kind')
+
     def block(self, n, ind):
         if n.get('kind') == 'CompoundStmt':
             return self.st(n, ind)
@@ -1385,7 +1669,11 @@ def render_function(unit, docs, types):
         else:
             ret = types.c(rq)
     body = [c for c in fn['inner'] if c.get('kind') == 'CompoundStmt'][0]
-    if unit.get('abstract'):
+    if unit.get('abstract') == 'sizes':
+        p.local_ids = set()
+        btxt = p.st_sz(body, 0)
+        ret = 'void'
+    elif unit.get('abstract'):
         btxt = p.st_abs(body, 0)
         ret = 'void'
     else:
